@@ -244,8 +244,8 @@ func verifModelBinaryWrite(w io.Writer, order binary.ByteOrder, data any) error 
 //@ func persistFooter returns (err)
 //@ thin
 //@ requires writerIn != nil
-//@ requires typeis(writerIn, ptr_CountHashWriter) ==> ptr_CountHashWriter(payload(writerIn)).w != nil && !typeis(ptr_CountHashWriter(payload(writerIn)).w, ptr_CountHashWriter) && !typeis(ptr_CountHashWriter(payload(writerIn)).w, ptr_bufWriter)
-//@ requires typeis(writerIn, ptr_bufWriter) ==> ptr_bufWriter(payload(writerIn)).w != nil
+//@ wf requires typeis(writerIn, ptr_CountHashWriter) ==> ptr_CountHashWriter(payload(writerIn)).w != nil && !typeis(ptr_CountHashWriter(payload(writerIn)).w, ptr_CountHashWriter) && !typeis(ptr_CountHashWriter(payload(writerIn)).w, ptr_bufWriter)
+//@ wf requires typeis(writerIn, ptr_bufWriter) ==> ptr_bufWriter(payload(writerIn)).w != nil
 //@ propagates err from (*CountHashWriter).Write [C17]
 //@ modifies alloc, new elems(uint8), new CountHashWriter.*
 //@ modifies CountHashWriter.n[payload(writerIn)] if typeis(writerIn, ptr_CountHashWriter), CountHashWriter.crc[payload(writerIn)] if typeis(writerIn, ptr_CountHashWriter), bufWriter.n[payload(writerIn)] if typeis(writerIn, ptr_bufWriter)
@@ -269,7 +269,7 @@ func verifModelBinaryWrite(w io.Writer, order binary.ByteOrder, data any) error 
 
 //@ func PersistSegmentBase returns (err)
 //@ thin
-//@ requires sb != nil && !fsExists(path)
+//@ requires sb != nil && !fsExists(path) && len(sb.mem) <= 0x3fffffffffffff00
 //@ propagates err from os.OpenFile, persistSegmentBaseToWriter, (*os.File).Sync, (*os.File).Close [C17]
 //@ ensures err != nil ==> !fsExists(path) [C17]
 //@ ensures $liveFiles == old($liveFiles) [C17]
@@ -278,14 +278,14 @@ func verifModelBinaryWrite(w io.Writer, order binary.ByteOrder, data any) error 
 
 //@ func (*SegmentBase).WriteTo returns (n, err)
 //@ thin
-//@ requires sb != nil
+//@ requires sb != nil && len(sb.mem) <= 0x3fffffffffffff00
 //@ ensures w == nil ==> err != nil [C17]
 //@ propagates err from persistSegmentBaseToWriter [C17]
 //@ end
 
 //@ func (*SegmentBase).Persist returns (err)
 //@ thin
-//@ requires sb != nil && !fsExists(path)
+//@ requires sb != nil && !fsExists(path) && len(sb.mem) <= 0x3fffffffffffff00
 //@ ensures err != nil ==> !fsExists(path) [C04,C17]
 //@ propagates err from PersistSegmentBase [C17]
 //@ end
@@ -436,4 +436,184 @@ func lemma1HitDiscriminator(docNum, normBits uint64) {
 //@ loop 1 invariant chanClosed(closeCh) == old(chanClosed(closeCh)) [C18]
 //@ loop 2 invariant chanClosed(closeCh) == old(chanClosed(closeCh)) [C18]
 //@ loop 3 invariant chanClosed(closeCh) == old(chanClosed(closeCh)) [C18]
+//@ ensures old(chanClosed(closeCh)) ==> chanClosed(closeCh) [C18]
+//@ modifies *, ghost chanClosed[closeCh], ghost bm64Empty
+//@ end
+
+// ---- C10: a pooled builder is clean after reset (one condition per field; a field without one is an error) ----
+
+//@ clean invertedIndexOpaque.bytesWritten zero
+//@ clean invertedIndexOpaque.results nil
+//@ clean invertedIndexOpaque.chunkMode zero
+//@ clean invertedIndexOpaque.init zero
+//@ clean invertedIndexOpaque.FieldsMap nil
+//@ clean invertedIndexOpaque.FieldsInv nil
+//@ clean invertedIndexOpaque.Dicts len0
+//@ clean invertedIndexOpaque.DictKeys len0
+//@ clean invertedIndexOpaque.IncludeDocValues len0
+//@ clean invertedIndexOpaque.Postings len0
+//@ clean invertedIndexOpaque.FreqNorms len0
+//@ clean invertedIndexOpaque.freqNormsBacking len0
+//@ clean invertedIndexOpaque.Locs len0
+//@ clean invertedIndexOpaque.locsBacking len0
+//@ clean invertedIndexOpaque.numTermsPerPostingsList len0
+//@ clean invertedIndexOpaque.numLocsPerPostingsList len0
+//@ clean invertedIndexOpaque.extraDocValues nil
+//@ clean invertedIndexOpaque.builder exempt reusable vellum builder, re-pointed at the emptied builderBuf by builder.Reset
+//@ clean invertedIndexOpaque.builderBuf bufreset
+//@ clean invertedIndexOpaque.reusableFieldLens len0
+//@ clean invertedIndexOpaque.reusableFieldTFs len0
+//@ clean invertedIndexOpaque.tmp0 len0
+//@ clean invertedIndexOpaque.fieldAddrs exempt never reset: every key read by AddrForField in a build is written earlier in the same build by writeDicts (not decided here)
+//@ clean invertedIndexOpaque.fieldsSame zero
+//@ clean invertedIndexOpaque.numDocs zero
+
+//@ func (*invertedIndexOpaque).Reset returns (err)
+//@ thin
+//@ tags [C10]
+//@ ensures clean(io)
+//@ modifies invertedIndexOpaque.*[io], ghost bmSet, elems(*), interimFreqNorm.*, interimLoc.*
+//@ end
+
+//@ clean synonymIndexOpaque.results nil
+//@ clean synonymIndexOpaque.init zero
+//@ clean synonymIndexOpaque.FieldsMap exempt not reset: overwritten through Set("fieldsMap") by convert() on every reuse before it is read
+//@ clean synonymIndexOpaque.ThesaurusMap nil
+//@ clean synonymIndexOpaque.ThesaurusInv len0
+//@ clean synonymIndexOpaque.Thesauri len0
+//@ clean synonymIndexOpaque.ThesaurusKeys len0
+//@ clean synonymIndexOpaque.FieldIDtoThesaurusID nil
+//@ clean synonymIndexOpaque.SynonymTermToID len0
+//@ clean synonymIndexOpaque.SynonymIDtoTerm len0
+//@ clean synonymIndexOpaque.Synonyms len0
+//@ clean synonymIndexOpaque.builder exempt reusable vellum builder, re-pointed at the emptied builderBuf by builder.Reset
+//@ clean synonymIndexOpaque.builderBuf bufreset
+//@ clean synonymIndexOpaque.tmp0 len0
+//@ clean synonymIndexOpaque.thesaurusAddrs exempt never reset: only keys written by writeThesauri in the same build are read (not decided here)
+
+//@ func (*synonymIndexOpaque).Reset returns (err)
+//@ thin
+//@ tags [C10]
+//@ ensures clean(so)
+//@ modifies synonymIndexOpaque.*[so], ghost bm64Empty, elems(*)
+//@ end
+
+//@ clean interim.results nil
+//@ clean interim.chunkMode zero
+//@ clean interim.w nil
+//@ clean interim.FieldsMap exempt emptied by the delete-every-key range idiom, which the map model (length only) cannot decide; convert() re-creates the table it reads (getOrDefineField) from an empty FieldsInv
+//@ clean interim.FieldsInv len0
+//@ clean interim.metaBuf bufreset
+//@ clean interim.tmp0 len0
+//@ clean interim.tmp1 len0
+//@ clean interim.lastNumDocs exempt sizing hint for the next build's buffer only
+//@ clean interim.lastOutSize exempt sizing hint for the next build's buffer only
+//@ clean interim.bytesWritten zero
+//@ clean interim.opaque exempt the per-section opaques are reset through their own Reset (contracts above)
+
+//@ func (*interim).reset returns (err)
+//@ thin
+//@ tags [C10]
+//@ ensures clean(s)
+//@ loop 2 invariant len(s.metaBuf.buf) == 0 && s.metaBuf.off == 0
+//@ end
+
+//@ func (*ZapPlugin).newWithChunkMode returns (sb, size, err)
+//@ thin
+//@ tags [C10]
+//@ ensures err != nil ==> $poolBalance == old($poolBalance) + 1
+//@ assert (*sync.Pool).Put#1 : err == nil
+//@ assert (*sync.Pool).Put#1 : clean(s)
+//@ end
+
+//@ func (*ZapPlugin).Open returns (sg, err)
+//@ thin
+//@ tags [C20]
+//@ ensures err != nil ==> $liveFiles == old($liveFiles) && $liveMaps == old($liveMaps)
+//@ ensures err == nil ==> $liveFiles == old($liveFiles) + 1 && $liveMaps == old($liveMaps) + 1
+//@ ensures err == nil ==> typeis(sg, ptr_Segment) && ptr_Segment(payload(sg)).refs == 1 && muHeld(ptr_Segment(payload(sg)).m) == 0
+//@ ensures err == nil ==> mmMapped(base(ptr_Segment(payload(sg)).mm)) && fileOpen(ptr_Segment(payload(sg)).f)
+//@ end
+
+// ---- C07: iterator construction/reuse and the single-hit state machine ----
+
+//@ func (*PostingsIterator).nextDocNumAtOrAfter returns (docNum, found, err)
+//@ thin
+//@ tags [C07]
+//@ requires i != nil
+//@ ensures old(i.normBits1Hit) != 0 ==> err == nil && i.docNum1Hit == DocNum1HitFinished && i.normBits1Hit == old(i.normBits1Hit)
+//@ ensures old(i.normBits1Hit) != 0 ==> (found <==> (old(i.docNum1Hit) != DocNum1HitFinished && old(i.docNum1Hit) >= atOrAfter))
+//@ ensures old(i.normBits1Hit) != 0 && found ==> docNum == old(i.docNum1Hit)
+//@ ensures old(i.normBits1Hit) != 0 && !found ==> docNum == 0
+//@ end
+
+//@ func (*PostingsIterator).DocNum1Hit returns (docNum, ok)
+//@ tags [C07]
+//@ requires p != nil
+//@ modifies nothing
+//@ ensures ok <==> (p.normBits1Hit != 0 && p.docNum1Hit != DocNum1HitFinished)
+//@ ensures ok ==> docNum == p.docNum1Hit
+//@ end
+
+//@ func (*PostingsIterator).ActualBitmap returns (bm)
+//@ tags [C07]
+//@ requires p != nil
+//@ modifies nothing
+//@ ensures bm == p.ActualBM
+//@ end
+
+//@ func (*PostingsIterator).ReplaceActual
+//@ thin
+//@ tags [C07]
+//@ requires p != nil && abm != nil
+//@ ensures p.ActualBM == abm && itSet(p.Actual) == bmSet(abm)
+//@ end
+
+//@ func (*PostingsList).iterator returns (it)
+//@ thin
+//@ tags [C07]
+//@ requires p != nil && (p.normBits1Hit == 0 && p.postings != nil ==> p.sb != nil)
+//@ requires rv != emptyPostingsIterator || rv == nil
+//@ ensures it != nil && (rv != nil ==> it == rv) && (rv == nil ==> fresh(it)) [C07,C11]
+//@ ensures it.postings == p && it.includeLocs == includeLocs && it.includeFreqNorm == (includeFreq || includeNorm || includeLocs)
+//@ ensures it.currChunk == 0 && it.bytesRead == 0 || (p.normBits1Hit == 0 && p.postings != nil)
+//@ ensures len(it.nextLocs) == 0 && len(it.nextSegmentLocs) == 0
+//@ ensures p.normBits1Hit != 0 ==> it.normBits1Hit == p.normBits1Hit && it.all == nil && it.Actual == nil && it.ActualBM == nil
+//@ ensures p.normBits1Hit != 0 ==> it.docNum1Hit == ite(p.except != nil && sHas(bmSet(p.except), uint32(p.docNum1Hit)), DocNum1HitFinished, p.docNum1Hit)
+//@ ensures p.normBits1Hit == 0 ==> it.normBits1Hit == 0 && it.docNum1Hit == 0
+//@ ensures p.normBits1Hit == 0 && p.postings == nil ==> it.all == nil && it.Actual == nil && it.ActualBM == nil
+//@ ensures p.normBits1Hit == 0 && p.postings != nil && p.except == nil ==> it.ActualBM == p.postings && it.Actual == it.all && itSet(it.all) == bmSet(p.postings)
+//@ ensures p.normBits1Hit == 0 && p.postings != nil && p.except != nil ==> bmSet(it.ActualBM) == sAndNot(bmSet(p.postings), bmSet(p.except)) && itSet(it.Actual) == bmSet(it.ActualBM) && itSet(it.all) == bmSet(p.postings)
+//@ end
+
+// ---- C18 / C19: the section merges observe the close channel ----
+
+//@ func mergeAndPersistInvertedSection returns (fieldAddrs, dvOffset, err)
+//@ thin
+//@ tags [C18]
+//@ ensures chanClosed(closeCh) && !old(chanClosed(closeCh)) ==> err == seg.ErrClosed
+//@ ensures old(chanClosed(closeCh)) ==> chanClosed(closeCh)
+//@ loop 1 invariant chanClosed(closeCh) == old(chanClosed(closeCh))
+//@ loop 2 invariant chanClosed(closeCh) == old(chanClosed(closeCh))
+//@ loop 3 invariant chanClosed(closeCh) == old(chanClosed(closeCh))
+//@ loop 5 invariant chanClosed(closeCh) == old(chanClosed(closeCh))
+//@ modifies *, ghost chanClosed[closeCh], ghost bmSet, ghost itSet
+//@ end
+
+//@ func (*invertedTextIndexSection).Merge returns (err)
+//@ thin
+//@ tags [C18]
+//@ ensures chanClosed(closeCh) && !old(chanClosed(closeCh)) ==> err == seg.ErrClosed
+//@ ensures old(chanClosed(closeCh)) ==> chanClosed(closeCh)
+//@ propagates err from mergeAndPersistInvertedSection [C17,C18]
+//@ modifies *, ghost chanClosed[closeCh], ghost bmSet, ghost itSet
+//@ end
+
+//@ func (*synonymIndexSection).Merge returns (err)
+//@ thin
+//@ tags [C18]
+//@ ensures chanClosed(closeCh) && !old(chanClosed(closeCh)) ==> err == seg.ErrClosed
+//@ ensures old(chanClosed(closeCh)) ==> chanClosed(closeCh)
+//@ propagates err from mergeAndPersistSynonymSection [C17,C18]
+//@ modifies *, ghost chanClosed[closeCh], ghost bm64Empty
 //@ end
